@@ -76,7 +76,7 @@ NClones(p) == Cardinality({i \in 1..Len(p) : p[i].op = "clone"})
 Toks(r) == [i \in 1..Len(r.obs) |-> <<r.obs[i].st, r.obs[i].st2, r.obs[i].out, r.obs[i].pre>>]
            \o [h \in 1..Len(r.fin) |-> <<r.fin[h].st, r.fin[h].st3, r.fin[h].probe, r.fin[h].ppre>>]
 RunOK(r) ==
-  /\ \A i \in 1..Len(r.obs) : ~r.obs[i].panic          \* no call of the transcript API panics
+  /\ ~r.finpanic /\ \A i \in 1..Len(r.obs) : ~r.obs[i].panic     \* no call of the transcript API panics
   /\ Len(r.obs) = Len(r.prog)
   /\ Len(r.fin) = 1 + NClones(r.prog)
   /\ \A i \in 1..Len(r.prog) : ActOK(r.prog[i], r.obs[i])
